@@ -234,6 +234,13 @@ def relation_of(body, g, eng=None):
     return None
 
 
+def _unfixed(g):
+    import copy
+    g2 = copy.copy(g)
+    g2.truth = None
+    return g2
+
+
 def senses(ctx, cfg, path, per_path=False):
     prog, ga = ctx.prog(cfg), ctx.gates_modular(cfg)
     body = prog.bodies[path]
@@ -248,8 +255,12 @@ def senses(ctx, cfg, path, per_path=False):
     for ap in aps:
         here = set()
         for g in ap['gates']:
-            if g.kind == 'deleg' or g.dom is False:
+            if g.kind == 'deleg':
                 continue
+            if g.dom is False:
+                # a test that only some of the ways to this accept site pass (`if a && b { refuse }`: going on says `!a` or `!b`, not both): its
+                # outcome is not fixed there
+                g = _unfixed(g)
             r = relation_of(body, g, ga.eng)
             if r is not None:
                 here.add(r)
